@@ -191,6 +191,88 @@ theorem stream_publishes_once_each (ptopic : Str) (filter : HErr → Bool) (item
     simp only [stream, List.map_cons, List.sum_cons, ih, pubs_length, List.filter_cons]
     cases acceptedItem filter it <;> simp <;> omega
 
+/-! ### stateful filters: one consultation per failed message, and its answer is the verdict -/
+
+/-- **filter consulted exactly once**: a failed message uses up exactly one answer of the filter, a handled one none -/
+theorem stateful_filter_consulted_once (ptopic : Str) (ans : List Bool) (pub : POut) (c : Ctx) (msg : Msg) (h : HRes) :
+    (middlewareS ptopic ans pub c msg h).2 = ans.drop (consultations h) := by
+  unfold middlewareS consultations
+  cases h.err <;> simp
+
+/-- the outcome is the outcome for the pure filter that gives the answer obtained -/
+theorem stateful_eq_pure (ptopic : Str) (ans : List Bool) (pub : POut) (c : Ctx) (msg : Msg) (h : HRes) :
+    (middlewareS ptopic ans pub c msg h).1 = middleware ptopic (fun _ => ans.headD false) pub c msg h := by
+  unfold middlewareS
+  cases he : h.err with
+  | none => simp [middleware, he]
+  | some e => rfl
+
+/-- **acked ⇒ handled or in the poison topic**, also when the filter is stateful: an ack of a failed message means
+    the one answer the filter gave was "yes" and the message (same uuid, payload) was accepted on the poison topic -/
+theorem stateful_acked_implies_handled_or_poisoned (ptopic : Str) (ans : List Bool) (pub : POut) (c : Ctx) (msg : Msg)
+    (h : HRes) (okp : Bool) (hack : routerSettle (middlewareS ptopic ans pub c msg h).1 okp = .ack) :
+    h.err = none ∨
+    (ans.headD false = true ∧ pub = .ok ∧
+      ∃ m', (middlewareS ptopic ans pub c msg h).1.pubs = [(ptopic, m')] ∧ m'.uuid = msg.uuid ∧ m'.payload = msg.payload) := by
+  rw [stateful_eq_pure] at hack ⊢
+  rcases acked_implies_handled_or_poisoned ptopic _ pub c msg h okp hack with h1 | ⟨e, m', _, hf, hp, h4, h5, h6⟩
+  · exact Or.inl h1
+  · exact Or.inr ⟨hf, hp, m', h4, h5, h6⟩
+
+/-- a failed message the filter said "yes" to is published exactly once; one it said "no" to is not published and
+    its error is returned (it stays failing) -/
+theorem stateful_verdict (ptopic : Str) (ans : List Bool) (pub : POut) (c : Ctx) (msg : Msg) (h : HRes) (e : HErr)
+    (he : h.err = some e) :
+    (ans.headD false = true → (middlewareS ptopic ans pub c msg h).1.pubs.length = 1) ∧
+    (ans.headD false = false → (middlewareS ptopic ans pub c msg h).1.pubs = [] ∧
+        (middlewareS ptopic ans pub c msg h).1.err = some (.same e)) := by
+  rw [stateful_eq_pure]
+  constructor
+  · intro hy
+    obtain ⟨m', h1, _⟩ := poison_once_same_identity ptopic (fun _ => ans.headD false) pub c msg h e he hy
+    rw [h1]; rfl
+  · intro hn
+    have := pass_through ptopic (fun _ => ans.headD false) pub c msg h (Or.inr ⟨e, he, hn⟩)
+    exact ⟨this.1, by rw [this.2.2.1, he]; rfl⟩
+
+def failed (it : Item) : Bool := it.res.err.isSome
+
+/-- **a budget is not wasted**: with a filter that says "yes" `k` times and then "no", a stream publishes
+    min(k, number of failed messages) messages to the poison topic – every consultation decides one message -/
+theorem budget_filter_stream (ptopic : Str) (k : Nat) (items : List Item) :
+    ((streamS ptopic (List.replicate k true) items).map (fun o => o.pubs.length)).sum =
+      min k (items.filter failed).length := by
+  induction items generalizing k with
+  | nil => simp [streamS]
+  | cons it rest ih =>
+    simp only [streamS, List.map_cons, List.sum_cons, List.filter_cons, failed]
+    rw [stateful_filter_consulted_once, stateful_eq_pure]
+    have hc : it.res.err = none ∨ ∃ e, it.res.err = some e := by
+      cases it.res.err with
+      | none => exact Or.inl rfl
+      | some e => exact Or.inr ⟨e, rfl⟩
+    rcases hc with he | ⟨e, he⟩
+    · have : (middleware ptopic (fun _ => (List.replicate k true).headD false) it.pub it.ctx it.msg it.res).pubs.length = 0 := by
+        simp [middleware, he]
+      rw [this]
+      simp [consultations, he, ih]
+    · cases k with
+      | zero =>
+        have : (middleware ptopic (fun _ => (List.replicate 0 true).headD false) it.pub it.ctx it.msg it.res).pubs.length = 0 := by
+          simp [middleware, he]
+        have h0 := ih 0
+        rw [this]
+        simp only [List.replicate_zero] at h0
+        simp [consultations, he, h0]
+      | succ k' =>
+        have : (middleware ptopic (fun _ => (List.replicate (k' + 1) true).headD false) it.pub it.ctx it.msg it.res).pubs.length = 1 := by
+          cases hp : it.pub <;> simp [middleware, he, List.replicate_succ]
+        rw [this]
+        simp only [consultations, he, Option.isSome_some, if_true, List.replicate_succ, List.drop_succ_cons, List.drop_zero]
+        rw [ih k']
+        simp only [List.length_cons]
+        omega
+
 /-! ### non-vacuity -/
 
 private def m0 : Msg := ⟨ascii "u1", ascii "payload", [(reasonKey, ascii "old"), (ascii "k", ascii "v")]⟩
@@ -207,6 +289,8 @@ example : (middleware (ascii "poison") (fun _ => true) (.fail (ascii "down")) c0
 example : (middleware (ascii "poison") (fun _ => false) .ok c0 m0 h0).err = some (.same e0) := by decide
 example : routerSettle (middleware (ascii "poison") (fun _ => true) .ok c0 m0 h0) true = .ack := by decide
 example : routerSettle (middleware (ascii "poison") (fun _ => true) (.fail []) c0 m0 h0) true = .nack := by decide
+example : (streamS (ascii "p") [true, false] [⟨.ok, c0, m0, h0⟩, ⟨.ok, c0, m0, ⟨[], [], none⟩⟩, ⟨.ok, c0, m0, h0⟩, ⟨.ok, c0, m0, h0⟩]).map
+    (fun o => (o.pubs.length, o.err.isSome)) = [(1, false), (0, false), (0, true), (0, true)] := by decide
 example : h0.err = some e0 ∧ (fun _ : HErr => true) e0 = true := ⟨rfl, rfl⟩
 example : ((stream (ascii "p") (fun _ => true) [⟨.ok, c0, m0, h0⟩, ⟨.fail [], c0, m0, ⟨[], [], none⟩⟩, ⟨.fail [], c0, m0, h0⟩]).map
     (fun o => o.pubs.length)) = [1, 0, 1] := by decide
